@@ -154,9 +154,9 @@ func vhStartEngineWith(st *vhEngStores, vs tmconsensus.ValidatorSet, cs tmconsen
 		return nil, err
 	}
 	l.e = e
-	// let the state machine's first round entrance be served before the network speaks: a vote
-	// that moves the mirror out of the entered round first crashes the kernel (KF-C09-1,
-	// decided by VH_C09_K15), which would make native runs of these harnesses schedule-dependent
+	// let the state machine's first round entrance be served before the network speaks, so
+	// that native runs of these harnesses do not depend on that schedule (the other order is
+	// VH_C09_K15's subject)
 	vhSettle()
 	return l, nil
 }
